@@ -412,7 +412,9 @@ func NewExtractor(r Getter) *Extractor {
 }
 
 func (x *Extractor) cacheGet(key extractorKey) (any, bool) {
+	verifSched("cacheGet")
 	x.mu.Lock()
+	verifLocked(&x.mu, "cacheGet")
 	v, ok := x.cache[key]
 	x.mu.Unlock()
 	return v, ok
@@ -428,8 +430,10 @@ func (x *Extractor) cacheGet(key extractorKey) (any, bool) {
 // deadlock-free: two goroutines decoding mutually-referential objects never wait
 // on each other, so a malformed file cannot hang the reader.
 func (x *Extractor) cacheStoreOrLoad(refs []Reference, tp reflect.Type, res any) any {
+	verifSched("storeOrLoad")
 	x.mu.Lock()
 	defer x.mu.Unlock()
+	verifLocked(&x.mu, "storeOrLoad")
 	for _, ref := range refs {
 		if v, ok := x.cache[extractorKey{ref: ref, tp: tp}]; ok {
 			res = v
@@ -457,8 +461,10 @@ func (x *Extractor) cacheStoreOrLoad(refs []Reference, tp reflect.Type, res any)
 func StoreOrLoadPair[A, B any](x *Extractor, ref Reference, a A, b B) (A, B) {
 	ka := extractorKey{ref: ref, tp: reflect.TypeFor[A]()}
 	kb := extractorKey{ref: ref, tp: reflect.TypeFor[B]()}
+	verifSched("storePair")
 	x.mu.Lock()
 	defer x.mu.Unlock()
+	verifLocked(&x.mu, "storePair")
 	if v, ok := x.cache[ka]; ok {
 		a = v.(A)
 	} else {
